@@ -1,0 +1,10 @@
+//go:build verif
+
+package flood
+
+// VerifLocalDisplayName returns the display name exactly as the flooder puts
+// it into the ROUTE_ADVERTISE messages it originates (after the cut to the
+// length the wire format can carry).
+func (f *Flooder) VerifLocalDisplayName() string {
+	return f.getLocalDisplayName()
+}
